@@ -124,6 +124,14 @@ def run(ctx):
     components(ctx)
 
 
+def search_only(ctx):
+    """escalated search (a correspondence or obligation broke): more and deeper expression trees, stop at the first hit"""
+    for k in range(ctx.n(2500, 40000)):
+        tree_case(ctx, int(ctx.rng.integers(2 ** 31)), depth=int(ctx.rng.integers(1, 6)))
+        if ctx.hits:
+            break
+
+
 def _rows(M, first=0):
     """per-row sorted (column - first) lists of a CSR matrix"""
     import scipy.sparse as sp
